@@ -16,14 +16,15 @@ SIM_ADDR = ("10.0.0.1", 10022)
 class SimPeer:
     """The real GeckoSimulator, driven in-process."""
 
-    def __init__(self, snapshot_file=None, snapshot=None, name=None, seg=None):
+    def __init__(self, snapshot_file=None, snapshot=None, name=None, seg=None, first_commands=None):
         from geckolib import GeckoSimulator  # noqa
         from geckolib.utils.snapshot import GeckoSnapshot
 
         root = logging.getLogger()
         before = list(root.handlers)
         with contextlib.redirect_stdout(io.StringIO()):
-            self.sim = GeckoSimulator()
+            # first_commands: the scripted way of bringing a simulator up (GeckoSimulator(["load <file>", ...]))
+            self.sim = GeckoSimulator(first_commands) if first_commands else GeckoSimulator()
         for h in list(root.handlers):
             if h not in before:
                 root.removeHandler(h)
